@@ -309,8 +309,11 @@ class BuildAssembly(Assembly):
                 # row from an OverlapResult
                 continue
 
+            # Tagged scaffolds all go into the assembly for their tag,
+            # whichever haplotype they are in, so fuse them across haplotypes
+            hap = None if scffld.tag else scffld.haplotype
             build_scffld = hap_name_scaffold.setdefault(
-                (scffld.haplotype, scffld.tag, scffld.name),
+                (hap, scffld.tag, scffld.name),
                 Scaffold(
                     scffld.name,
                     tag=scffld.tag,
